@@ -6,7 +6,7 @@
    the file semantics (Spec/D4Sem.v). *)
 From Coq Require Import List ZArith Bool Lia Arith.
 From DD Require Import Model.Circuit Model.LexerD4 Model.LoadC2d Model.LoadD4 Spec.D4Sem
-  Proofs.LoadD4Graph Proofs.LoadD4Ops Proofs.LoadD4Pass2 Proofs.LoadD4Struct.
+  Proofs.Renum Proofs.LoadD4Graph Proofs.LoadD4Ops Proofs.LoadD4Pass2 Proofs.LoadD4Struct.
 Import ListNotations.
 Local Open Scope nat_scope.
 
@@ -23,8 +23,10 @@ Definition edge_rep (g : sgraph) (idx : list nat) (e : list Z * nat) (y : nat) :
   exists tx, 1 <= snd e /\ nth_error idx (snd e - 1) = Some tx /\
     ((fst e = [] /\ y = tx) \/ (fst e <> [] /\ ~ In y idx /\ exp_node g y (fst e) tx)).
 
-Record rep (n0 : nat) (done : list d4token) (b : bstate) : Prop := {
-  rp_core : core_ok (bs_ls b);
+Definition unl (e : list Z * nat) : bool := match fst e with [] => true | _ => false end.
+
+Record rep (P : Z -> Prop) (st : bool) (n0 : nat) (done : list d4token) (b : bstate) : Prop := {
+  rp_core : core_ok P st (bs_ls b);
   rp_tri : ls_tri (bs_ls b) = [];
   rp_nodup : NoDup (bs_idx b);
   rp_decl : Forall2 (fun k x => sg_label (ls_g (bs_ls b)) x = Some (tid_of_kind k))
@@ -36,7 +38,19 @@ Record rep (n0 : nat) (done : list d4token) (b : bstate) : Prop := {
   rp_total : bs_total b = Nat.max n0 (d4_maxvar done);
   (* NodeIndex::new(0) is the node of the first declaration *)
   rp_first : forall x, nth_error (bs_idx b) 0 = Some x -> x = 0;
-  rp_empty : bs_idx b = [] -> ls_g (bs_ls b) = sg_empty
+  rp_empty : bs_idx b = [] -> ls_g (bs_ls b) = sg_empty;
+  (* a node that is not declared is a literal leaf or an expansion And *)
+  rp_class : forall y t, sg_label (ls_g (bs_ls b)) y = Some t -> In y (bs_idx b) \/ is_litk t \/ t = GAnd;
+  (* the occurrence table *)
+  rp_occ : forall f, In f (bs_occ b) <-> exists from to fs, In (DEdge from to fs) done /\ In f (map Z.abs_nat fs);
+  rp_lits : forall k z, lookupZ (ls_lits (bs_ls b)) k = Some z -> In (Z.abs_nat k) (bs_occ b);
+  (* an and node that is not declared is the expansion of a labelled edge *)
+  rp_exp : forall y, sg_label (ls_g (bs_ls b)) y = Some GAnd -> ~ In y (bs_idx b) ->
+           exists i e tx, In e (d4_edges_from done i) /\ fst e <> [] /\ 1 <= snd e /\
+                          nth_error (bs_idx b) (snd e - 1) = Some tx /\ exp_node (ls_g (bs_ls b)) y (fst e) tx;
+  (* no duplicate children where the unlabelled edges of the node have distinct targets *)
+  rp_ndout : forall i x, nth_error (bs_idx b) i = Some x ->
+             NoDup (map snd (filter unl (d4_edges_from done (S i)))) -> NoDup (sg_out (ls_g (bs_ls b)) x)
 }.
 
 (* ---------- small facts ---------- *)
@@ -71,11 +85,17 @@ Proof.
   - now apply IH.
 Qed.
 
-Lemma idx_alive n0 done b x : rep n0 done b -> In x (bs_idx b) -> sg_alive (ls_g (bs_ls b)) x = true.
+Lemma idx_alive P st n0 done b x : rep P st n0 done b -> In x (bs_idx b) -> sg_alive (ls_g (bs_ls b)) x = true.
 Proof.
   intros HR Hin. apply In_nth_error in Hin. destruct Hin as [i Hi].
-  destruct (Forall2_nth_error _ _ _ _ _ (rp_decl _ _ _ HR) Hi) as [k [_ Hk]].
+  destruct (Forall2_nth_error _ _ _ _ _ (rp_decl _ _ _ _ _ HR) Hi) as [k [_ Hk]].
   unfold sg_alive. now rewrite Hk.
+Qed.
+
+Lemma NoDup_app_l {A} (a b : list A) : NoDup (a ++ b) -> NoDup a.
+Proof.
+  induction a as [|x a IH]; cbn [app]; intros H; [constructor|]. inversion H; subst.
+  constructor; [|now apply IH]. intros Hx. apply H2. apply in_or_app. now left.
 Qed.
 
 Lemma NoDup_app_snoc {A} (l : list A) x : NoDup l -> ~ In x l -> NoDup (l ++ [x]).
@@ -111,21 +131,26 @@ Qed.
 
 Section Parse.
 Variable rc : bool.
+Context {P : Z -> Prop} {st : bool}.
+(* the whole file: an edge line may only leave an or / and node when st is set *)
+Variable all : list d4token.
+Definition gate_from (from : Z) : Prop :=
+  exists k, nth_error (d4_decls all) (Z.to_nat from - 1) = Some k /\ (k = KOr \/ k = KAnd).
 
 (* ---------- declarations ---------- *)
-Lemma rep_decl n0 done b t k : rep n0 done b -> d4_kind t = [k] -> d4_token_max t = 0 ->
+Lemma rep_decl n0 done b t k : rep P st n0 done b -> d4_kind t = [k] -> d4_token_max t = 0 ->
   (forall i, d4_edge_of i t = []) ->
-  rep n0 (done ++ [t]) (decl rc (tid_of_kind k) b).
+  rep P st n0 (done ++ [t]) (decl rc (tid_of_kind k) b).
 Proof.
   intros HR Hk Hmax Hne. unfold decl.
   destruct (add_node rc (tid_of_kind k) (ls_g (bs_ls b))) as [x g'] eqn:Ha.
-  pose proof HR as [[HI Hl Hp] Htri Hnd Hdecl Hedges Hrange Htot Hfirst Hempty].
+  pose proof HR as [[HI Hl Hp Hinj Hsr] Htri Hnd Hdecl Hedges Hrange Htot Hfirst Hempty Hclass Hocc Hlits Hexp Hndo].
   pose proof (add_node_ext rc _ _ _ _ [] HI Ha) as He.
   pose proof (add_node_fresh rc _ _ _ _ HI Ha) as Hfresh.
   pose proof (add_node_label_new rc _ _ _ _ HI Ha) as Hlx.
   assert (Hxd : sg_alive (ls_g (bs_ls b)) x = false) by (unfold sg_alive; now rewrite Hfresh).
   assert (Hxn : ~ In x (bs_idx b)).
-  { intros Hin. rewrite (idx_alive _ _ _ _ HR Hin) in Hxd. discriminate. }
+  { intros Hin. rewrite (idx_alive _ _ _ _ _ _ HR Hin) in Hxd. discriminate. }
   constructor; unfold with_g; cbn [bs_ls bs_idx bs_occ bs_total ls_g ls_lits ls_tri].
   - constructor; cbn [ls_g ls_lits].
     + apply (add_node_Inv rc _ _ _ _ HI Ha).
@@ -133,6 +158,10 @@ Proof.
     + intros z l Hz. destruct (Nat.eq_dec z x) as [->|Hzx].
       * rewrite Hlx in Hz. destruct k; discriminate.
       * rewrite (add_node_label_old rc _ _ _ _ Ha z Hzx) in Hz. now apply (Hp z).
+    + intros z l Hz. destruct (Nat.eq_dec z x) as [->|Hzx].
+      * rewrite Hlx in Hz. destruct k; discriminate.
+      * rewrite (add_node_label_old rc _ _ _ _ Ha z Hzx) in Hz. now apply (Hinj z).
+    + intros Hst. exact (add_node_srcs rc _ _ _ _ HI Ha (Hsr Hst)).
   - exact Htri.
   - apply NoDup_app_snoc; assumption.
   - rewrite d4_decls_app. unfold d4_decls at 2. cbn [flat_map]. rewrite Hk, app_nil_r.
@@ -142,7 +171,7 @@ Proof.
     rewrite Hne, !app_nil_r.
     destruct (Nat.lt_ge_cases i (length (bs_idx b))) as [Hlt|Hge].
     + rewrite nth_error_app1 in Hi by exact Hlt.
-      assert (Hza : sg_alive (ls_g (bs_ls b)) z = true) by (apply (idx_alive _ _ _ _ HR); now apply nth_error_In in Hi).
+      assert (Hza : sg_alive (ls_g (bs_ls b)) z = true) by (apply (idx_alive _ _ _ _ _ _ HR); now apply nth_error_In in Hi).
       rewrite (ex_out _ _ _ He z Hza) by (intros []).
       eapply Forall2_impl; [|exact (Hedges i z Hi)]. intros e y Hey.
       apply (edge_rep_ext _ _ (bs_idx b) _ [] e y He); [intros ? []| | |exact Hey].
@@ -160,12 +189,34 @@ Proof.
       unfold add_node in Ha. cbn in Ha. destruct rc; now injection Ha as <- _.
     + cbn [app nth_error] in Hz. now apply Hfirst.
   - intros E. destruct (bs_idx b); discriminate.
+  - intros y ty Hy. destruct (add_node_label_cases rc _ _ _ _ _ _ Ha Hy) as [[-> _]|[_ H0]].
+    + left. apply in_or_app. right. now left.
+    + destruct (Hclass y ty H0) as [H1|H1]; [left; apply in_or_app; now left|now right].
+  - intros f. rewrite Hocc. split; intros [from [to [fs [Hin Hf]]]]; exists from, to, fs; (split; [|exact Hf]).
+    + apply in_or_app. now left.
+    + apply in_app_or in Hin. destruct Hin as [Hin|[E|[]]]; [exact Hin|]. subst t. cbn in Hk. discriminate.
+  - exact Hlits.
+  - intros y Hy Hny. destruct (add_node_label_cases rc _ _ _ _ _ _ Ha Hy) as [[-> _]|[Hyx H0]].
+    + exfalso. apply Hny. apply in_or_app. right. now left.
+    + destruct (Hexp y H0) as [i [e [tx [He1 [He2 [He3 [He4 He5]]]]]]]; [intros Hin; apply Hny; apply in_or_app; now left|].
+      exists i, e, tx. split; [rewrite d4_edges_from_app; apply in_or_app; now left|]. split; [exact He2|]. split; [exact He3|].
+      split; [rewrite nth_error_app1; [exact He4|apply nth_error_Some; congruence]|].
+      apply (exp_node_ext _ _ [] _ _ _ He); [intros []|exact He5].
+  - intros i z Hi Hnd'. rewrite d4_edges_from_app in Hnd'. unfold d4_edges_from at 2 in Hnd'. cbn [flat_map] in Hnd'.
+    rewrite Hne, !app_nil_r in Hnd'.
+    destruct (Nat.lt_ge_cases i (length (bs_idx b))) as [Hlt|Hge].
+    + rewrite nth_error_app1 in Hi by exact Hlt.
+      assert (Hza : sg_alive (ls_g (bs_ls b)) z = true) by (apply (idx_alive _ _ _ _ _ _ HR); now apply nth_error_In in Hi).
+      rewrite (ex_out _ _ _ He z Hza) by (intros []). exact (Hndo i z Hi Hnd').
+    + rewrite nth_error_app2 in Hi by exact Hge.
+      destruct (i - length (bs_idx b)) as [|j] eqn:Ej; cbn [nth_error] in Hi; [|destruct j; discriminate].
+      injection Hi as <-. rewrite (add_node_no_out rc _ _ _ _ HI Ha). constructor.
 Qed.
 
 (* ---------- the literal leaves of an edge ---------- *)
-Lemma get_lits_spec : forall ls s lns s', core_ok s -> Forall (fun l => l <> 0%Z) ls ->
+Lemma get_lits_spec : forall ls s lns s', core_ok P st s -> Forall P ls ->
   get_lits rc ls s = (lns, s') ->
-  core_ok s' /\ ext (ls_g s) (ls_g s') [] /\ lit_nodes (ls_g s') ls lns /\ ls_tri s' = ls_tri s.
+  core_ok P st s' /\ ext (ls_g s) (ls_g s') [] /\ lit_nodes (ls_g s') ls lns /\ ls_tri s' = ls_tri s.
 Proof.
   induction ls as [|l r IH]; intros s lns s' Hc Hnz H; cbn [get_lits] in H.
   - injection H as <- <-. split; [exact Hc|]. split; [apply ext_refl|]. split; [constructor|reflexivity].
@@ -178,15 +229,16 @@ Proof.
     constructor; [exact (ext_label_some _ _ _ _ _ He2 Hlx)|exact Hn2].
 Qed.
 
-Lemma add_edges_to_spec an : forall bs s s', core_ok s -> add_edges_to an bs s = Some s' ->
-  core_ok s' /\ ext (ls_g s) (ls_g s') [an] /\ sg_out (ls_g s') an = rev bs ++ sg_out (ls_g s) an /\
+Lemma add_edges_to_spec an : forall bs s s', core_ok P st s -> (st = true -> gate_at (ls_g s) an) ->
+  add_edges_to an bs s = Some s' ->
+  core_ok P st s' /\ ext (ls_g s) (ls_g s') [an] /\ sg_out (ls_g s') an = rev bs ++ sg_out (ls_g s) an /\
   ls_tri s' = ls_tri s.
 Proof.
-  induction bs as [|b r IH]; intros s s' Hc H; cbn [add_edges_to] in H.
+  induction bs as [|b r IH]; intros s s' Hc Hg H; cbn [add_edges_to] in H.
   - injection H as <-. split; [exact Hc|]. split; [apply ext_refl|]. split; reflexivity.
   - destruct (ls_add_edge an b s) as [s1|] eqn:E1; [|discriminate].
-    destruct (ls_add_edge_core an b s s1 [an] Hc (or_introl eq_refl) E1) as [Hc1 [He1 [Ht1 [_ Ho1]]]].
-    destruct (IH s1 s' Hc1 H) as [Hc' [He' [Ho' Ht']]].
+    destruct (ls_add_edge_core an b s s1 [an] Hc (or_introl eq_refl) Hg E1) as [Hc1 [He1 [Ht1 [_ Ho1]]]].
+    destruct (IH s1 s' Hc1 (fun Hst => gate_at_ext _ _ _ _ He1 (Hg Hst)) H) as [Hc' [He' [Ho' Ht']]].
     split; [exact Hc'|]. split; [exact (ext_trans _ _ _ _ He1 He')|]. split; [|congruence].
     rewrite Ho', Ho1. cbn [rev]. now rewrite <- app_assoc.
 Qed.
@@ -195,14 +247,14 @@ Lemma remove1_head c l : remove1 c (c :: l) = l.
 Proof. cbn [remove1]. now rewrite Nat.eqb_refl. Qed.
 
 (* resolve_weighted_edge after the plain edge a -> c was added *)
-Lemma resolve_spec a c fs s s1 s2 : core_ok s -> Forall (fun l => l <> 0%Z) fs ->
+Lemma resolve_spec a c fs s s1 s2 : core_ok P st s -> Forall P fs -> (st = true -> gate_at (ls_g s) a) ->
   ls_add_edge a c s = Some s1 -> resolve_weighted_edge rc a c fs s1 = Some s2 ->
-  core_ok s2 /\ ls_tri s2 = ls_tri s /\ ext (ls_g s) (ls_g s2) [a] /\
+  core_ok P st s2 /\ ls_tri s2 = ls_tri s /\ ext (ls_g s) (ls_g s2) [a] /\
   exists y, sg_out (ls_g s2) a = y :: sg_out (ls_g s) a /\
     ((fs = [] /\ y = c) \/ (fs <> [] /\ sg_alive (ls_g s) y = false /\ exp_node (ls_g s2) y fs c)).
 Proof.
-  intros Hc Hnz E1 H.
-  destruct (ls_add_edge_core a c s s1 [a] Hc (or_introl eq_refl) E1) as [Hc1 [He01 [Ht1 [_ Ho1]]]].
+  intros Hc Hnz Hga E1 H.
+  destruct (ls_add_edge_core a c s s1 [a] Hc (or_introl eq_refl) Hga E1) as [Hc1 [He01 [Ht1 [_ Ho1]]]].
   assert (Hal : sg_alive (ls_g s) a = true /\ sg_alive (ls_g s) c = true).
   { unfold ls_add_edge in E1. destruct (add_edge a c (ls_g s)) as [g1|] eqn:E; [|discriminate].
     exact (add_edge_alive a c _ _ E). }
@@ -223,7 +275,7 @@ Proof.
     set (s2' := with_g s1' (remove_edge a c g2)) in H.
     destruct (ls_add_edge a an s2') as [s3|] eqn:E3; [|discriminate].
     destruct (add_edges_to an lns s3) as [s4|] eqn:E4; [|discriminate].
-    destruct Hc1' as [HI1 Hl1 Hp1].
+    destruct Hc1' as [HI1 Hl1 Hp1 Hj1 Hsr1].
     pose proof (add_node_fresh rc _ _ _ _ HI1 Ha) as Hfresh.
     pose proof (add_node_label_new rc _ _ _ _ HI1 Ha) as Hlan.
     pose proof (add_node_no_out rc _ _ _ _ HI1 Ha) as Hoan.
@@ -233,12 +285,15 @@ Proof.
     assert (Hand : sg_alive (ls_g s) an = false).
     { destruct (sg_alive (ls_g s) an) eqn:E; [|reflexivity].
       pose proof (ext_alive _ _ _ _ He11 (ext_alive _ _ _ _ He01 E)) as E'. unfold sg_alive in E'. now rewrite Hfresh in E'. }
-    assert (Hc2' : core_ok s2').
+    assert (Hc2' : core_ok P st s2').
     { constructor; cbn [s2' with_g ls_g ls_lits ls_tri].
       - apply remove_edge_Inv, (add_node_Inv rc _ _ _ _ HI1 Ha).
       - intros l z Hz. rewrite remove_edge_label. apply (ext_label_some _ _ _ _ _ He12). now apply Hl1.
       - intros z l Hz. rewrite remove_edge_label in Hz. destruct (Nat.eq_dec z an) as [->|Hza]; [congruence|].
-        rewrite (add_node_label_old rc _ _ _ _ Ha z Hza) in Hz. now apply (Hp1 z). }
+        rewrite (add_node_label_old rc _ _ _ _ Ha z Hza) in Hz. now apply (Hp1 z).
+      - intros z l Hz. rewrite remove_edge_label in Hz. destruct (Nat.eq_dec z an) as [->|Hza]; [congruence|].
+        rewrite (add_node_label_old rc _ _ _ _ Ha z Hza) in Hz. now apply (Hj1 z).
+      - intros Hst. apply remove_edge_srcs. exact (add_node_srcs rc _ _ _ _ HI1 Ha (Hsr1 Hst)). }
     assert (He22 : ext (ls_g s1') (ls_g s2') [a]).
     { apply (ext_trans _ g2); [apply (ext_weaken _ _ []); [intros ? []|exact He12]|]. apply remove_edge_ext. now left. }
     assert (Ho2a : sg_out (ls_g s2') a = sg_out (ls_g s) a).
@@ -248,9 +303,11 @@ Proof.
     assert (Ho2n : sg_out (ls_g s2') an = []).
     { cbn [s2' with_g ls_g]. rewrite remove_edge_out_other by exact Hne. exact Hoan. }
     assert (Hl2n : sg_label (ls_g s2') an = Some GAnd) by exact Hlan.
-    destruct (ls_add_edge_core a an s2' s3 [a] Hc2' (or_introl eq_refl) E3) as [Hc3 [He23 [Ht3 [_ Ho3]]]].
-    destruct (add_edges_to_spec an lns s3 s4 Hc3 E4) as [Hc4 [He34 [Ho4 Ht4]]].
-    destruct (ls_add_edge_core an c s4 s2 [an] Hc4 (or_introl eq_refl) H) as [Hc5 [He45 [Ht5 [_ Ho5]]]].
+    destruct (ls_add_edge_core a an s2' s3 [a] Hc2' (or_introl eq_refl)
+                (fun Hst => gate_at_ext _ _ _ _ He22 (gate_at_ext _ _ _ _ He11 (gate_at_ext _ _ _ _ He01 (Hga Hst)))) E3) as [Hc3 [He23 [Ht3 [_ Ho3]]]].
+    destruct (add_edges_to_spec an lns s3 s4 Hc3 (fun _ => gate_at_ext _ _ _ _ He23 (gate_and _ _ Hl2n)) E4) as [Hc4 [He34 [Ho4 Ht4]]].
+    destruct (ls_add_edge_core an c s4 s2 [an] Hc4 (or_introl eq_refl)
+                (fun _ => gate_at_ext _ _ _ _ He34 (gate_at_ext _ _ _ _ He23 (gate_and _ _ Hl2n))) H) as [Hc5 [He45 [Ht5 [_ Ho5]]]].
     pose proof (ext_trans _ _ _ _ He34 He45) as He35.
     assert (Ha2 : sg_alive (ls_g s2') a = true) by exact (ext_alive _ _ _ _ He22 Ha1).
     assert (Ha3 : sg_alive (ls_g s3) a = true) by exact (ext_alive _ _ _ _ He23 Ha2).
@@ -274,6 +331,114 @@ Proof.
         -- apply (lit_nodes_ext _ _ _ _ _ He35), (lit_nodes_ext _ _ _ _ _ He23), (lit_nodes_ext _ _ _ _ _ He22). exact Hn1.
 Qed.
 
+Lemma get_lits_S : forall ls s lns s', get_lits rc ls s = (lns, s') ->
+  forall y t, sg_label (ls_g s') y = Some t -> sg_label (ls_g s) y = Some t \/ is_litk t.
+Proof.
+  induction ls as [|l r IH]; intros s lns s' H y t Hy; cbn [get_lits] in H.
+  - injection H as <- <-. now left.
+  - destruct (get_lit rc l s) as [x s1] eqn:E1. destruct (get_lits rc r s1) as [xs s2] eqn:E2.
+    injection H as <- <-. destruct (IH _ _ _ E2 y t Hy) as [H1|H1]; [|now right].
+    exact (proj1 (get_lit_S rc _ _ _ _ E1) y t H1).
+Qed.
+
+Lemma add_edges_to_S an : forall bs s s', add_edges_to an bs s = Some s' ->
+  forall y, sg_label (ls_g s') y = sg_label (ls_g s) y.
+Proof.
+  induction bs as [|b r IH]; intros s s' H y; cbn [add_edges_to] in H.
+  - now injection H as <-.
+  - destruct (ls_add_edge an b s) as [s1|] eqn:E1; [|discriminate].
+    rewrite (IH _ _ H y). exact (proj1 (ls_add_edge_S _ _ _ _ E1) y).
+Qed.
+
+Lemma ls_add_edge_mono a b s s' x z : ls_add_edge a b s = Some s' ->
+  In z (sg_out (ls_g s) x) -> In z (sg_out (ls_g s') x).
+Proof.
+  unfold ls_add_edge. destruct (add_edge a b (ls_g s)) as [g'|] eqn:E; [|discriminate].
+  intros H. injection H as <-. cbn [with_g ls_g]. now apply (add_edge_out_mono a b).
+Qed.
+
+Lemma add_edges_to_mono an x z : forall bs s s', add_edges_to an bs s = Some s' ->
+  In z (sg_out (ls_g s) x) -> In z (sg_out (ls_g s') x).
+Proof.
+  induction bs as [|b r IH]; intros s s' H Hz; cbn [add_edges_to] in H; [now injection H as <-|].
+  destruct (ls_add_edge an b s) as [s1|] eqn:E1; [|discriminate].
+  exact (IH _ _ H (ls_add_edge_mono _ _ _ _ _ _ E1 Hz)).
+Qed.
+
+Lemma ls_add_edge_lits a b s s' : ls_add_edge a b s = Some s' -> ls_lits s' = ls_lits s.
+Proof.
+  unfold ls_add_edge. destruct (add_edge a b (ls_g s)) as [g'|]; [|discriminate]. intros H. now injection H as <-.
+Qed.
+Lemma add_edges_to_lits an : forall bs s s', add_edges_to an bs s = Some s' -> ls_lits s' = ls_lits s.
+Proof.
+  induction bs as [|b r IH]; intros s s' H; cbn [add_edges_to] in H; [now injection H as <-|].
+  destruct (ls_add_edge an b s) as [s1|] eqn:E1; [|discriminate]. rewrite (IH _ _ H). exact (ls_add_edge_lits _ _ _ _ E1).
+Qed.
+Lemma get_lits_keys : forall ls s lns s', get_lits rc ls s = (lns, s') ->
+  forall k z, lookupZ (ls_lits s') k = Some z -> (exists z', lookupZ (ls_lits s) k = Some z') \/ In k ls.
+Proof.
+  induction ls as [|l r IH]; intros s lns s' H k z Hk; cbn [get_lits] in H.
+  - injection H as <- <-. left. now exists z.
+  - destruct (get_lit rc l s) as [x s1] eqn:E1. destruct (get_lits rc r s1) as [xs s2] eqn:E2.
+    injection H as <- <-. destruct (IH _ _ _ E2 k z Hk) as [[z' Hz']|Hin]; [|right; now right].
+    unfold get_lit in E1. destruct (lookupZ (ls_lits s) l) as [x0|] eqn:El.
+    + injection E1 as <- <-. left. now exists z'.
+    + destruct (add_node rc (GLit l) (ls_g s)) as [x1 g1]. injection E1 as <- <-. cbn [ls_lits] in Hz'.
+      rewrite lookupZ_cons in Hz'. destruct (Z.eqb_spec l k) as [->|Hne]; [right; now left|left; now exists z'].
+Qed.
+Lemma resolve_keys a c fs s1 s2 : resolve_weighted_edge rc a c fs s1 = Some s2 ->
+  forall k z, lookupZ (ls_lits s2) k = Some z -> (exists z', lookupZ (ls_lits s1) k = Some z') \/ In k fs.
+Proof.
+  intros H k z Hk. unfold resolve_weighted_edge in H.
+  destruct (get_lits rc fs s1) as [lns s1'] eqn:El.
+  destruct lns as [|ln0 lns'].
+  - injection H as <-. exact (get_lits_keys _ _ _ _ El k z Hk).
+  - destruct (add_node rc GAnd (ls_g s1')) as [an g2] eqn:Ha.
+    destruct (ls_add_edge a an (with_g s1' (remove_edge a c g2))) as [s3|] eqn:E3; [|discriminate].
+    destruct (add_edges_to an (ln0 :: lns') s3) as [s4|] eqn:E4; [|discriminate].
+    rewrite (ls_add_edge_lits _ _ _ _ H), (add_edges_to_lits _ _ _ _ E4), (ls_add_edge_lits _ _ _ _ E3) in Hk.
+    cbn [with_g ls_lits] in Hk. exact (get_lits_keys _ _ _ _ El k z Hk).
+Qed.
+
+(* a new and node of an edge line is the new child of the source *)
+Lemma resolve_S_and a c fs s1 s2 : resolve_weighted_edge rc a c fs s1 = Some s2 ->
+  forall y, sg_label (ls_g s2) y = Some GAnd -> sg_label (ls_g s1) y = Some GAnd \/ In y (sg_out (ls_g s2) a).
+Proof.
+  intros H y Hy. unfold resolve_weighted_edge in H.
+  destruct (get_lits rc fs s1) as [lns s1'] eqn:El.
+  pose proof (get_lits_S fs s1 lns s1' El) as Hl.
+  destruct lns as [|ln0 lns'].
+  - injection H as <-. destruct (Hl y _ Hy) as [H1|[l H1]]; [now left|discriminate].
+  - destruct (add_node rc GAnd (ls_g s1')) as [an g2] eqn:Ha.
+    destruct (ls_add_edge a an (with_g s1' (remove_edge a c g2))) as [s3|] eqn:E3; [|discriminate].
+    destruct (add_edges_to an (ln0 :: lns') s3) as [s4|] eqn:E4; [|discriminate].
+    pose proof Hy as Hy'.
+    rewrite (proj1 (ls_add_edge_S _ _ _ _ H) y), (add_edges_to_S _ _ _ _ E4 y), (proj1 (ls_add_edge_S _ _ _ _ E3) y) in Hy'.
+    cbn [with_g ls_g] in Hy'. rewrite remove_edge_label in Hy'.
+    destruct (add_node_label_cases rc _ _ _ _ _ _ Ha Hy') as [[-> _]|[_ H0]].
+    + right. apply (ls_add_edge_mono _ _ _ _ _ _ H), (add_edges_to_mono _ _ _ _ _ _ E4).
+      unfold ls_add_edge in E3. destruct (add_edge a an _) as [g3|] eqn:E; [|discriminate]. injection E3 as <-.
+      cbn [with_g ls_g]. rewrite (add_edge_out_same a an _ _ E). now left.
+    + destruct (Hl y _ H0) as [H1|[l H1]]; [now left|discriminate].
+Qed.
+
+Lemma resolve_S a c fs s1 s2 : resolve_weighted_edge rc a c fs s1 = Some s2 ->
+  forall y t, sg_label (ls_g s2) y = Some t -> sg_label (ls_g s1) y = Some t \/ is_litk t \/ t = GAnd.
+Proof.
+  intros H y t Hy. unfold resolve_weighted_edge in H.
+  destruct (get_lits rc fs s1) as [lns s1'] eqn:El.
+  pose proof (get_lits_S fs s1 lns s1' El) as Hl.
+  destruct lns as [|ln0 lns'].
+  - injection H as <-. destruct (Hl y t Hy) as [H1|H1]; auto.
+  - destruct (add_node rc GAnd (ls_g s1')) as [an g2] eqn:Ha.
+    destruct (ls_add_edge a an (with_g s1' (remove_edge a c g2))) as [s3|] eqn:E3; [|discriminate].
+    destruct (add_edges_to an (ln0 :: lns') s3) as [s4|] eqn:E4; [|discriminate].
+    rewrite (proj1 (ls_add_edge_S _ _ _ _ H) y), (add_edges_to_S _ _ _ _ E4 y), (proj1 (ls_add_edge_S _ _ _ _ E3) y) in Hy.
+    cbn [with_g ls_g] in Hy. rewrite remove_edge_label in Hy.
+    destruct (add_node_label_cases rc _ _ _ _ _ _ Ha Hy) as [[_ ->]|[_ H0]]; [now right; right|].
+    destruct (Hl y t H0) as [H1|H1]; auto.
+Qed.
+
 Lemma idx_get_spec idx i a : idx_get idx i = Some a ->
   (0 < i)%Z /\ 1 <= Z.to_nat i /\ nth_error idx (Z.to_nat i - 1) = Some a.
 Proof.
@@ -281,17 +446,25 @@ Proof.
 Qed.
 
 (* ---------- an edge line ---------- *)
-Lemma rep_edge n0 done b from to fs b' : rep n0 done b -> Forall (fun l => l <> 0%Z) fs ->
-  d4_line rc b (DEdge from to fs) = Some b' -> rep n0 (done ++ [DEdge from to fs]) b'.
+Lemma rep_edge n0 done b from to fs b' : rep P st n0 done b -> Forall P fs ->
+  (exists r, d4_decls all = d4_decls done ++ r) -> (st = true -> gate_from from) ->
+  d4_line rc b (DEdge from to fs) = Some b' -> rep P st n0 (done ++ [DEdge from to fs]) b'.
 Proof.
-  intros HR Hnz H. cbn [d4_line] in H.
+  intros HR Hnz [rest Hrest] Hgf H. cbn [d4_line] in H.
   destruct (idx_get (bs_idx b) from) as [a|] eqn:Ea; [|discriminate].
   destruct (idx_get (bs_idx b) to) as [c|] eqn:Ec; [|discriminate].
   destruct (ls_add_edge a c (bs_ls b)) as [s1|] eqn:E1; [|discriminate].
   destruct (resolve_weighted_edge rc a c fs s1) as [s2|] eqn:E2; [|discriminate].
   injection H as <-.
-  pose proof HR as [Hc Htri Hnd Hdecl Hedges Hrange Htot Hfirst Hempty].
-  destruct (resolve_spec a c fs (bs_ls b) s1 s2 Hc Hnz E1 E2) as [Hc2 [Ht2 [He [y [Hoa Hy]]]]].
+  pose proof HR as [Hc Htri Hnd Hdecl Hedges Hrange Htot Hfirst Hempty Hclass Hocc Hlits Hexp Hndo].
+  assert (Hga : st = true -> gate_at (ls_g (bs_ls b)) a).
+  { intros Hst. destruct (Hgf Hst) as [k [Hk Hkg]].
+    unfold idx_get in Ea. destruct (0 <? from)%Z; [|discriminate].
+    destruct (Forall2_nth_error _ _ _ _ _ Hdecl Ea) as [k' [Hk' Hlk]].
+    rewrite Hrest, nth_error_app1 in Hk by (apply nth_error_Some; congruence).
+    assert (k' = k) by congruence. subst k'. exists (tid_of_kind k). split; [exact Hlk|].
+    destruct Hkg as [-> | ->]; reflexivity. }
+  destruct (resolve_spec a c fs (bs_ls b) s1 s2 Hc Hnz Hga E1 E2) as [Hc2 [Ht2 [He [y [Hoa Hy]]]]].
   destruct (idx_get_spec _ _ _ Ea) as [Hf0 [Hf1 Hfa]].
   destruct (idx_get_spec _ _ _ Ec) as [Ht0 [Ht1 Htc]].
   set (p := Z.to_nat from - 1) in *.
@@ -307,14 +480,14 @@ Proof.
   - rewrite d4_decls_app. unfold d4_decls at 2. cbn [flat_map d4_kind]. rewrite app_nil_r.
     eapply Forall2_impl; [|exact Hdecl]. intros k z Hz. exact (ext_label_some _ _ _ _ _ He Hz).
   - intros i x Hi. rewrite d4_edges_from_app. unfold d4_edges_from at 2. cbn [flat_map d4_edge_of]. rewrite app_nil_r.
-    assert (Hxa : sg_alive (ls_g (bs_ls b)) x = true) by (apply (idx_alive _ _ _ _ HR); now apply nth_error_In in Hi).
+    assert (Hxa : sg_alive (ls_g (bs_ls b)) x = true) by (apply (idx_alive _ _ _ _ _ _ HR); now apply nth_error_In in Hi).
     destruct (Nat.eq_dec i p) as [->|Hip].
     + assert (x = a) as -> by congruence.
       rewrite Hfrom, Z.eqb_refl, rev_app_distr. cbn [rev app]. rewrite Hoa.
       constructor; [|eapply Forall2_impl; [exact Htrans|exact (Hedges p a Hi)]].
       exists c. cbn [fst snd]. split; [exact Ht1|]. split; [exact Htc|].
-      destruct Hy as [[-> ->]|[Hfs [Hyd Hexp]]]; [left; now split|]. right. split; [exact Hfs|]. split; [|exact Hexp].
-      intros Hin. rewrite (idx_alive _ _ _ _ HR Hin) in Hyd. discriminate.
+      destruct Hy as [[-> ->]|[Hfs [Hyd Hexpn]]]; [left; now split|]. right. split; [exact Hfs|]. split; [|exact Hexpn].
+      intros Hin. rewrite (idx_alive _ _ _ _ _ _ HR Hin) in Hyd. discriminate.
     + assert (Hne : (from =? Z.of_nat (S i))%Z = false) by (apply Z.eqb_neq; lia).
       rewrite Hne, app_nil_r.
       assert (Hxne : x <> a).
@@ -329,39 +502,93 @@ Proof.
   - rewrite d4_maxvar_snoc, fold_left_max, Htot. cbn [d4_token_max]. lia.
   - exact Hfirst.
   - intros E. rewrite E in Hfa. destruct (Z.to_nat from - 1); discriminate.
+  - intros z tz Hz. destruct (resolve_S _ _ _ _ _ E2 z tz Hz) as [H1|H1]; [|now right].
+    rewrite (proj1 (ls_add_edge_S _ _ _ _ E1) z) in H1. now apply Hclass.
+  - intros f. rewrite in_app_iff, Hocc. split.
+    + intros [Hf|[from' [to' [fs' [Hin Hf]]]]].
+      * exists from, to, fs. split; [apply in_or_app; right; now left|exact Hf].
+      * exists from', to', fs'. split; [apply in_or_app; now left|exact Hf].
+    + intros [from' [to' [fs' [Hin Hf]]]]. apply in_app_or in Hin. destruct Hin as [Hin|[E|[]]].
+      * right. now exists from', to', fs'.
+      * injection E as <- <- <-. now left.
+  - intros k z Hk. apply in_or_app. destruct (resolve_keys _ _ _ _ _ E2 k z Hk) as [[z' Hz']|Hin].
+    + right. rewrite (ls_add_edge_lits _ _ _ _ E1) in Hz'. exact (Hlits k z' Hz').
+    + left. apply in_map_iff. now exists k.
+  - intros z Hz Hzn.
+    assert (Hold : sg_label (ls_g (bs_ls b)) z = Some GAnd ->
+                   exists i e tx, In e (d4_edges_from (done ++ [DEdge from to fs]) i) /\ fst e <> [] /\ 1 <= snd e /\
+                                  nth_error (bs_idx b) (snd e - 1) = Some tx /\ exp_node (ls_g s2) z (fst e) tx).
+    { intros H0. destruct (Hexp z H0 Hzn) as [i [e [tx [He1 [He2 [He3 [He4 He5]]]]]]].
+      exists i, e, tx. split; [rewrite d4_edges_from_app; apply in_or_app; now left|]. split; [exact He2|]. split; [exact He3|].
+      split; [exact He4|]. apply (exp_node_ext _ _ [a] _ _ _ He); [|exact He5]. intros [<-|[]]. now apply Hzn. }
+    destruct (resolve_S_and _ _ _ _ _ E2 z Hz) as [H1|H1].
+    + rewrite (proj1 (ls_add_edge_S _ _ _ _ E1) z) in H1. now apply Hold.
+    + rewrite Hoa in H1. destruct H1 as [<-|H1].
+      * destruct Hy as [[_ ->]|[Hfs [_ Hexpy]]]; [exfalso; apply Hzn; now apply nth_error_In in Htc|].
+        exists (S p), (fs, Z.to_nat to), c. split.
+        -- rewrite d4_edges_from_app. apply in_or_app. right. unfold d4_edges_from. cbn [flat_map d4_edge_of].
+           rewrite Hfrom, Z.eqb_refl. now left.
+        -- cbn [fst snd]. split; [exact Hfs|]. split; [exact Ht1|]. split; [exact Htc|exact Hexpy].
+      * apply Hold. rewrite <- (ex_label _ _ _ He z); [exact Hz|].
+        exact (proj2 (out_alive _ _ _ (proj1 (co_inv _ _ _ Hc)) H1)).
+  - intros i x Hi Hnd'. rewrite d4_edges_from_app in Hnd'. unfold d4_edges_from at 2 in Hnd'.
+    cbn [flat_map d4_edge_of] in Hnd'. rewrite app_nil_r in Hnd'.
+    assert (Hxa : sg_alive (ls_g (bs_ls b)) x = true) by (apply (idx_alive _ _ _ _ _ _ HR); now apply nth_error_In in Hi).
+    destruct (Nat.eq_dec i p) as [->|Hip].
+    + assert (x = a) as -> by congruence.
+      rewrite Hfrom, Z.eqb_refl, filter_app, map_app in Hnd'. rewrite Hoa.
+      pose proof (Hndo p a Hi (NoDup_app_l _ _ Hnd')) as Hold.
+      constructor; [|exact Hold]. intros Hyin.
+      destruct Hy as [[-> ->]|[Hfs [Hyd _]]].
+      * destruct (Forall2_In_r _ _ _ _ (Hedges p a Hi) Hyin) as [e' [He' [tx [Hs1 [Htx Hcase]]]]].
+        destruct Hcase as [[Hnil ->]|[_ [Hnin _]]]; [|apply Hnin; now apply nth_error_In in Htc].
+        assert (Hsame : snd e' - 1 = Z.to_nat to - 1).
+        { apply (proj1 (NoDup_nth_error (bs_idx b)) Hnd); [apply nth_error_Some; congruence|congruence]. }
+        cbn [filter unl fst map snd app] in Hnd'. apply NoDup_remove_2 in Hnd'. apply Hnd'. rewrite app_nil_r.
+        apply in_map_iff. exists e'. split; [lia|]. apply filter_In. split; [now apply in_rev|].
+        unfold unl. now rewrite Hnil.
+      * rewrite (proj2 (out_alive _ _ _ (proj1 (co_inv _ _ _ Hc)) Hyin)) in Hyd. discriminate.
+    + assert (Hne : (from =? Z.of_nat (S i))%Z = false) by (apply Z.eqb_neq; lia).
+      rewrite Hne, app_nil_r in Hnd'.
+      assert (Hxne : x <> a).
+      { intros ->. apply Hip. apply (proj1 (NoDup_nth_error (bs_idx b)) Hnd i p); [|congruence].
+        apply nth_error_Some. congruence. }
+      rewrite (ex_out _ _ _ He x Hxa) by (intros [E|[]]; congruence). exact (Hndo i x Hi Hnd').
 Qed.
 
 (* ---------- the whole file ---------- *)
-Lemma rep_line n0 done b t b' : rep n0 done b ->
-  (forall from to fs, t = DEdge from to fs -> Forall (fun l => l <> 0%Z) fs) ->
-  d4_line rc b t = Some b' -> rep n0 (done ++ [t]) b'.
+Lemma rep_line n0 done b t b' : rep P st n0 done b ->
+  (forall from to fs, t = DEdge from to fs -> Forall P fs /\ (st = true -> gate_from from)) ->
+  (exists r, d4_decls all = d4_decls done ++ r) ->
+  d4_line rc b t = Some b' -> rep P st n0 (done ++ [t]) b'.
 Proof.
-  intros HR Hnz H. destruct t as [from to fs| | | |].
-  - apply (rep_edge n0 done b from to fs b' HR (Hnz _ _ _ eq_refl) H).
+  intros HR Hnz Hpre H. destruct t as [from to fs| | | |].
+  - apply (rep_edge n0 done b from to fs b' HR (proj1 (Hnz _ _ _ eq_refl)) Hpre (proj2 (Hnz _ _ _ eq_refl)) H).
   - cbn [d4_line] in H. injection H as <-. now apply (rep_decl n0 done b DOr KOr).
   - cbn [d4_line] in H. injection H as <-. now apply (rep_decl n0 done b DAnd KAnd).
   - cbn [d4_line] in H. injection H as <-. now apply (rep_decl n0 done b DTrue KTrue).
   - cbn [d4_line] in H. injection H as <-. now apply (rep_decl n0 done b DFalse KFalse).
 Qed.
 
-Lemma rep_lines n0 : forall toks done b b', rep n0 done b ->
-  (forall from to fs, In (DEdge from to fs) toks -> Forall (fun l => l <> 0%Z) fs) ->
-  d4_lines rc b toks = Some b' -> rep n0 (done ++ toks) b'.
+Lemma rep_lines n0 : forall toks done b b', rep P st n0 done b -> done ++ toks = all ->
+  (forall from to fs, In (DEdge from to fs) toks -> Forall P fs /\ (st = true -> gate_from from)) ->
+  d4_lines rc b toks = Some b' -> rep P st n0 (done ++ toks) b'.
 Proof.
-  induction toks as [|t r IH]; intros done b b' HR Hnz H; cbn [d4_lines] in H.
+  induction toks as [|t r IH]; intros done b b' HR Hall Hnz H; cbn [d4_lines] in H.
   - injection H as <-. now rewrite app_nil_r.
   - destruct (d4_line rc b t) as [b1|] eqn:E; [|discriminate].
-    replace (done ++ t :: r) with ((done ++ [t]) ++ r) by now rewrite <- app_assoc.
-    apply (IH (done ++ [t]) b1 b'); [|intros from to fs Hin; apply (Hnz from to fs); now right|exact H].
-    apply (rep_line n0 done b t b1 HR); [|exact E].
-    intros from to fs ->. apply (Hnz from to fs). now left.
+    replace (done ++ t :: r) with ((done ++ [t]) ++ r) in * by now rewrite <- app_assoc.
+    apply (IH (done ++ [t]) b1 b'); [|exact Hall|intros from to fs Hin; apply (Hnz from to fs); now right|exact H].
+    apply (rep_line n0 done b t b1 HR); [| |exact E].
+    + intros from to fs ->. apply (Hnz from to fs). now left.
+    + exists (d4_decls ([t] ++ r)). now rewrite <- Hall, <- app_assoc, d4_decls_app.
 Qed.
 
-Lemma rep_init n0 : rep n0 [] (mkBS (mkLS sg_empty [] []) [] [] n0).
+Lemma rep_init n0 : rep P st n0 [] (mkBS (mkLS sg_empty [] []) [] [] n0).
 Proof.
   constructor; cbn [bs_ls bs_idx bs_total ls_g ls_lits ls_tri].
-  - constructor; cbn [ls_g ls_lits]; [apply Inv_empty|discriminate|].
-    intros z l Hz. unfold sg_label in Hz. cbn in Hz. destruct z; discriminate.
+  - constructor; cbn [ls_g ls_lits]; [apply Inv_empty|discriminate| | |intros _ a b []];
+      intros z l Hz; unfold sg_label in Hz; cbn in Hz; destruct z; discriminate.
   - reflexivity.
   - constructor.
   - constructor.
@@ -370,5 +597,10 @@ Proof.
   - cbn. lia.
   - intros x Hx. discriminate.
   - reflexivity.
+  - intros y t Hy. unfold sg_label in Hy. cbn in Hy. destruct y; discriminate.
+  - intros f. cbn. split; [intros []|intros [from [to [fs [[] _]]]]].
+  - intros k z Hk. discriminate.
+  - intros y Hy. unfold sg_label in Hy. cbn in Hy. destruct y; discriminate.
+  - intros i x Hi. destruct i; discriminate.
 Qed.
 End Parse.
